@@ -79,6 +79,19 @@ def _gen_sessions(rng, station_ids, horizon, max_sessions):
     k = rng.randint(1, max_sessions)
     sessions = []
     busy = {}
+    mode = rng.random()
+    if mode < 0.3 and len(station_ids) >= 2 and horizon >= 4:
+        # front-/back-loaded: the aggregate peak sits strictly in the FIRST (resp. LAST charging) period
+        front = mode < 0.15
+        sts = rng.sample(station_ids, min(len(station_ids), max(2, k)))
+        for j, st in enumerate(sts):
+            if front:
+                arr, dep = 0, (1 if j == 0 else rng.randint(2, horizon - 1))
+            else:
+                arr, dep = (horizon - 2 if j == 0 else rng.randint(0, horizon - 3)), horizon - 1
+            sessions.append({"session": f"s{j}", "station": st, "arrival": arr, "departure": dep,
+                             "requested": 60.0, "batt": {"two": False, "cap": 100, "init": 0, "maxp": 50}})
+        return sessions
     for j in range(k):
         st = rng.choice(station_ids)
         a0 = busy.get(st, 0)
